@@ -252,6 +252,30 @@ func streamNI(rep *Report, tier string, seed uint64) {
 				o0, p0, _ := c.run(0)
 				o1, p1, _ := c.run(1)
 				var orc []string
+				if i%8 == 0 {
+					// a redactable obtained from the library whose *hidden* content differs between the instantiations
+					// (same safe text, same envelopes), as a direct operand, a wrapped one and inside containers, under
+					// a random directive: what is visible after Redact() must not depend on the hidden part
+					d := genDirective(r)
+					if !strings.ContainsAny(d[len(d)-1:], "Tpw") && !strings.Contains(d, "*") {
+						mk := func(inst int) redact.RedactableString {
+							return redact.Sprintf("id=%v;n=%d", unsafeStr(2*(i%4), inst), unsafeInt(i%5, inst))
+						}
+						for ri, wrap := range []func(x redact.RedactableString) interface{}{
+							func(x redact.RedactableString) interface{} { return x },
+							func(x redact.RedactableString) interface{} { return x.ToBytes() },
+							func(x redact.RedactableString) interface{} { return redact.Safe(x) },
+							func(x redact.RedactableString) interface{} { return []redact.RedactableString{x} },
+							func(x redact.RedactableString) interface{} { return inner{A: x, b: x} },
+						} {
+							a0, pa := rSprintf("[L"+d+"R]", []interface{}{wrap(mk(0))})
+							a1, pb := rSprintf("[L"+d+"R]", []interface{}{wrap(mk(1))})
+							if pa == "" && pb == "" && !bytes.Equal(realRedact(a0), realRedact(a1)) {
+								orc = append(orc, fmt.Sprintf("C02:redacted outputs differ for a redactable operand (form %d) under %q whose hidden content differs: %q vs %q", ri, d, realRedact(a0), realRedact(a1)))
+							}
+						}
+					}
+				}
 				if (p0 != "") != (p1 != "") {
 					orc = append(orc, "C02:one instantiation panics, the other does not")
 				} else if p0 == "" {
@@ -573,7 +597,7 @@ func envelopeTreeCase(r *Rng, emit func(Case)) {
 	if r.Bool() {
 		f := ""
 		for i := 0; i < n; i++ {
-			f += []string{"%v ", "%+v|", "%s,", "%8v;", "%-9v."}[r.Intn(5)]
+			f += []string{"%v ", "%+v|", "%s,", "%8v;", "%-9v.", "%q:", "%#v/", "%s "}[r.Intn(8)]
 		}
 		c.f = f
 	}
@@ -888,10 +912,17 @@ func streamCompose(rep *Report, tier string, seed uint64) {
 					orc = append(orc, fmt.Sprintf("C08:redactable inside a Safe()/SafeValue container: got %q", o4))
 				}
 				// containers
-				shape := r.Intn(9)
+				shape := r.Intn(12)
 				var cont interface{}
 				var want string
 				switch shape {
+				case 9:
+					// redactables as map keys by the map's static key type (no interface in between)
+					cont, want = map[redact.RedactableString]redact.RedactableString{rs: rs}, "map["+string(rs)+":"+string(rs)+"]"
+				case 10:
+					cont, want = map[redact.RedactableString]interface{}{rs: arg}, "map["+string(rs)+":"+string(rs)+"]"
+				case 11:
+					cont, want = &struct{ M map[redact.RedactableString]redact.SafeInt }{map[redact.RedactableString]redact.SafeInt{rs: 3}}, "&{map["+string(rs)+":3]}"
 				case 5:
 					// keys that fmtsort has to order without being able to look them up again (NaN != NaN)
 					cont, want = map[float64]redact.RedactableString{math.NaN(): rs}, "map[‹NaN›:"+string(rs)+"]"
